@@ -139,6 +139,25 @@ Proof.
 Qed.
 Print Assumptions own_pages_take_the_view.
 
+(* core._is_one_bitpacked_run says `one run` exactly when the header is a bit-packed run header (odd) whose groups hold at least
+   the page's values - only then are the nval whole-byte indices the little-endian integers right behind the header *)
+Theorem one_run_check_spec : forall header nval,
+  one_run_check header nval = true <-> (header mod 2 = 1 /\ nval <= 8 * (header / 2)).
+Proof.
+  intros header nval. unfold one_run_check.
+  rewrite ?N.shiftr_div_pow2. change (2 ^ 1) with 2.
+  assert (L : N.land header 1 = header mod 2) by (change 1 with (N.ones 1); rewrite N.land_ones; reflexivity).
+  rewrite ?L.
+  pose proof (N.mod_upper_bound header 2 ltac:(lia)) as Hm.
+  (* whatever way the source spells the two comparisons *)
+  repeat match goal with
+  | |- context [?a =? ?b] => destruct (N.eqb_spec a b)
+  | |- context [?a <=? ?b] => destruct (N.leb_spec a b)
+  | |- context [?a <? ?b] => destruct (N.ltb_spec a b)
+  end; cbn [negb andb orb]; split; intros Hx; try discriminate; try (destruct Hx); try split; try lia; try reflexivity.
+Qed.
+Print Assumptions one_run_check_spec.
+
 (* ---- 3. DELTA_BINARY_PACKED: the allocation's item size is the one the decoder is told ------------------------ *)
 Theorem v1_delta_alloc_consistent : forall t,
   fst (v1_delta_alloc t) = if snd (v1_delta_alloc t) then 8 else 4.
